@@ -179,6 +179,9 @@ impl Property for C16Prop {
             return Some(json!({"kind": "mix", "op": op, "k": k, "inc": 1 + tape.below(4), "ident": 1 + tape.below(4),
                                "readers": tape.below(4), "iters": 200 + tape.below(tier.of(1500, 6000)), "reps": tier.of(2, 6)}));
         }
+        if tape.chance(1, 8) {
+            return Some(json!({"kind": "cross", "which": tape.below(CROSS.len()), "threads": 2 + tape.below(5), "iters": 200 + tape.below(tier.of(3000, 20000)), "reps": tier.of(2, 6)}));
+        }
         if tape.chance(1, 6) {
             return Some(json!({"kind": "append", "cell": *tape.pick(&["array", "string", "float", "nested"]), "threads": threads,
                                "iters": 50 + tape.below(tier.of(600, 3000)), "reps": tier.of(3, 10)}));
@@ -237,9 +240,100 @@ impl Property for C16Prop {
             "isolated" => check_isolated(case, stats),
             "mix" => check_mix(case, stats),
             "append" => check_append(case, stats),
+            "cross" => check_cross(case, stats),
             _ => Verdict::Discard("unknown kind"),
         }
     }
+}
+
+/// two shared cells, each updated from the content of the other: (setup yielding (a, b, f, g), f and g
+/// take the iteration number; every value they return and the final contents are subsets of `mask`)
+const CROSS: [(&str, i64); 4] = [
+    ("a := mut 5; b := mut 48; f := (k: int) -> int { return a |= *b; }; g := (k: int) -> int { return b |= *a; }; (a, b, f, g)", 0x35),
+    ("a := mut 5; b := mut 48; f := (k: int) -> int { a = *b; return a |= *b; }; g := (k: int) -> int { b = *a; return b |= *a; }; (a, b, f, g)", 0x35),
+    ("a := mut 255; b := mut 15; f := (k: int) -> int { return a &= *b | 3; }; g := (k: int) -> int { return b &= *a | 12; }; (a, b, f, g)", 0xff),
+    ("a := mut [int] [1]; b := mut [int] [2]; f := (k: int) -> int { return std.len(a = *b) & 1; }; g := (k: int) -> int { return std.len(b = *a) & 1; }; (a, b, f, g)", 1),
+];
+
+/// Threads alternately running f (updates a from b) and g (updates b from a). No execution may
+/// panic, return anything outside the mask, or stop making progress: the workers are watched, and
+/// if none of them finishes a single call within 40 s while calls normally take microseconds,
+/// the executions are deadlocked.
+fn check_cross(case: &Json, stats: &mut Stats) -> Verdict {
+    use std::sync::atomic::{AtomicBool, AtomicU64, Ordering};
+    let (text, mask) = CROSS[case["which"].as_u64().unwrap_or(0) as usize % CROSS.len()];
+    let threads = case["threads"].as_u64().unwrap_or(2) as usize;
+    let iters = case["iters"].as_u64().unwrap_or(500) as usize;
+    let reps = case["reps"].as_u64().unwrap_or(1) as usize;
+    for rep in 0..reps {
+        let (f, g) = match run::run_text(text, true) {
+            Outcome::Value(Variable::Tuple(parts)) if parts.len() == 4 => match (&parts[2], &parts[3]) {
+                (Variable::Function(f), Variable::Function(g)) => (f.clone(), g.clone()),
+                _ => return fail("C16:setup", format!("`{text}` did not yield (a, b, f, g)")),
+            },
+            o => return fail("C16:setup", format!("`{text}`: {}", o.short())),
+        };
+        let progress = Arc::new(AtomicU64::new(0));
+        let done = Arc::new(AtomicU64::new(0));
+        let bad: Arc<std::sync::Mutex<Option<String>>> = Arc::new(std::sync::Mutex::new(None));
+        let stop = Arc::new(AtomicBool::new(false));
+        let barrier = Arc::new(Barrier::new(threads));
+        for t in 0..threads {
+            let (f, g) = (f.clone(), g.clone());
+            let (progress, done, bad, stop, barrier) = (progress.clone(), done.clone(), bad.clone(), stop.clone(), barrier.clone());
+            // not scoped: a deadlocked worker can never be joined
+            std::thread::Builder::new()
+                .stack_size(64 << 20)
+                .spawn(move || {
+                    run::default_budget();
+                    barrier.wait();
+                    for i in 0..iters {
+                        if stop.load(Ordering::Relaxed) {
+                            break;
+                        }
+                        let which = if (t + i) % 2 == 0 { &f } else { &g };
+                        match call(which, i as i64) {
+                            Ret::Int(v) if v & !mask == 0 => {}
+                            other => {
+                                *bad.lock().unwrap() = Some(format!("{other:?}"));
+                                break;
+                            }
+                        }
+                        progress.fetch_add(1, Ordering::Relaxed);
+                    }
+                    done.fetch_add(1, Ordering::Relaxed);
+                })
+                .expect("spawn");
+        }
+        let mut last = (0u64, Instant::now());
+        loop {
+            std::thread::sleep(std::time::Duration::from_millis(20));
+            if done.load(Ordering::Relaxed) as usize == threads {
+                break;
+            }
+            let p = progress.load(Ordering::Relaxed);
+            if p != last.0 {
+                last = (p, Instant::now());
+            } else if last.1.elapsed().as_secs() >= 40 {
+                stop.store(true, Ordering::Relaxed);
+                return fail(
+                    "C16:deadlock",
+                    format!(
+                        "{threads} threads alternating f and g of `{text}`: {} of them never finished, and no call completed for 40 s after {p} calls (the executions are deadlocked)",
+                        threads - done.load(Ordering::Relaxed) as usize
+                    ),
+                );
+            }
+        }
+        stats.evals((threads * iters) as u64);
+        stats.nontrivial(&format!("{case}#{rep}"));
+        stats.label("cross: two cells updated from each other");
+        if let Some(b) = bad.lock().unwrap().take() {
+            return fail("C16:cross:abnormal", format!("workload {case} on `{text}`: a call returned {b}"));
+        }
+    }
+    stats.sample(2, || json!({"workload": case}));
+    Verdict::Pass
 }
 
 /// `+=` on cells that do not hold an int: T threads x M appends of distinct tokens to one shared
@@ -665,13 +759,21 @@ fn check_mix(case: &Json, stats: &mut Stats) -> Verdict {
     Verdict::Pass
 }
 
-const ISOLATED: [&str; 6] = [
+const ISOLATED: [&str; 12] = [
     "f := (n: int) -> int { c := mut 0; i := mut 0; while *i < n { c += *i; i += 1; } return *c; }",
     "f := (n: int) -> [int] { sq := (x: int) -> int { return x * x; }; a := [n; 4] + [1, 2, 3]; return a~ @ sq $]; }",
     "f := (n: int) -> int { odd := (x: int) -> bool { return x % 2 == 1; }; return [n, 1, 2, 3, n + 1]~ ? odd $+; }",
     "f := (n: int) -> any { r := [n, \"a\", 2.5, n]~ ? int $]; return (r, [1, 2, 3]~$*, [true, false]~$||, [n]~$&); }",
     "f := (n: int) -> int { g := (k: int) -> int { if k <= 0 { return 0; } return k + g(k - 1); }; return g(n); }",
     "f := (n: int) -> any { it := [n, n + 1]~; a := it(); b := it(); c := it(); return (a, b, c.0, ([n, 2]~ \\ (x: int) -> bool { return x > 1; })); }",
+    // state that must be created by each execution, not once per parsed program: fillers that are cells,
+    // cells made from literals, iterators over literal arrays, captured constants
+    "f := (n: int) -> int { it := [mut 5]~ ? mut int; it(); c := it().1; k := mut 0; while *k < n { c += 1; k += 1; } return *c; }",
+    "f := (n: int) -> int { mk := () -> mut int { return mut int 0; }; a := mk(); b := mk(); a += n; b += 1; return *a * 1000 + *b; }",
+    "f := (n: int) -> int { t := mut 0; for x in [1, 2, 3]~ { for y in [10, 20]~ { t += x * y; } } return *t + n; }",
+    "f := (n: int) -> int { it := [1, 2, 3]~ @ (x: int) -> int { return x * n; }; a := it $+; b := it $+; return a * 100 + b; }",
+    "f := (n: int) -> any { it := [n, \"s\"]~ ? string; a := it(); b := it(); c := [mut 0; 2]; c[0] += n; return (a, b, c); }",
+    "f := (n: int) -> any { cs := [mut [int] [], mut [int] []]; cs[0] += [n]; m := mod { k := mut 1; }; m.k += n; return (cs, m.k, std.len(*cs[1])); }",
 ];
 
 fn check_isolated(case: &Json, stats: &mut Stats) -> Verdict {
@@ -680,7 +782,7 @@ fn check_isolated(case: &Json, stats: &mut Stats) -> Verdict {
     let which = case["which"].as_u64().unwrap() as usize % ISOLATED.len();
     let reps = case["reps"].as_u64().unwrap_or(1) as usize;
     let text = ISOLATED[which];
-    let f = match run::run_text(text, false) {
+    let f = match run::run_text(text, true) {
         Outcome::Value(Variable::Function(f)) => f,
         o => return fail("C16:setup", format!("`{text}`: {}", o.short())),
     };
@@ -767,6 +869,10 @@ pub fn run(session: &Session) -> i32 {
     for (op, k) in MIX_OPS {
         cases.push(json!({"kind": "mix", "op": op, "k": k, "inc": 3, "ident": 3, "readers": 2, "iters": session.tier.of(1500, 10000), "reps": session.tier.of(2, 8)}));
     }
+    for which in 0..CROSS.len() {
+        cases.push(json!({"kind": "cross", "which": which, "threads": 4, "iters": session.tier.of(3000, 30000), "reps": session.tier.of(3, 10)}));
+        cases.push(json!({"kind": "cross", "which": which, "threads": 2, "iters": session.tier.of(5000, 50000), "reps": session.tier.of(2, 6)}));
+    }
     for cell in ["array", "string", "float", "nested"] {
         cases.push(json!({"kind": "append", "cell": cell, "threads": 8, "iters": session.tier.of(1000, 5000), "reps": session.tier.of(3, 12)}));
     }
@@ -797,9 +903,9 @@ pub fn run(session: &Session) -> i32 {
         }
     }
     session.finish(
-        "workloads on real threads released by a barrier and repeated: (orbit) T threads x M identical updates `c op= k` through one shared function value for updates with an injective orbit (+= -= *= <<= >>= /= **= ^=): the multiset of values returned by the assignments must be exactly {f(x0)..f^(TM)(x0)} and the final content f^(TM)(x0); (bits) every single update owns one bit (|= &= ^=): each returned value shows the caller's own update and the final content shows all; (history) 3 threads x 1-3 operations over all 12 assignment operators incl. failing ones, brute-force linearizability of returned values + final content against the i128 model; (mix) incrementing threads + threads applying an identity update of each other operator family (/= 1, **= 1, <<= 0, >>= 0, %= MAX, *= 1, -= 0, |= 0, &= -1) + reading threads on one cell: no increment lost, every increment returns a distinct value, reads/identity updates see a non-decreasing value in range; (append) T threads x M `c += [k]` / `c += \"k,\"` / `c += 1.0` on one shared array, string, float or nested-array cell: the sizes returned by the assignments are exactly 1..TM, each once, and the final content holds every token exactly once; (isolated) 16 threads executing the same Code objects (loops, closures, recursion, iterator helpers @ ? ~ $] $+ $* $|| $& \\ ? T) must each get the sequential result. Workload shapes are drawn from VERIF_SEED; interleavings are whatever the scheduler produces. Non-trivial = a repetition in which at least two threads' execution intervals overlapped; distinct by workload and repetition.",
+        "workloads on real threads released by a barrier and repeated: (orbit) T threads x M identical updates `c op= k` through one shared function value for updates with an injective orbit (+= -= *= <<= >>= /= **= ^=): the multiset of values returned by the assignments must be exactly {f(x0)..f^(TM)(x0)} and the final content f^(TM)(x0); (bits) every single update owns one bit (|= &= ^=): each returned value shows the caller's own update and the final content shows all; (history) 3 threads x 1-3 operations over all 12 assignment operators incl. failing ones, brute-force linearizability of returned values + final content against the i128 model; (mix) incrementing threads + threads applying an identity update of each other operator family (/= 1, **= 1, <<= 0, >>= 0, %= MAX, *= 1, -= 0, |= 0, &= -1) + reading threads on one cell: no increment lost, every increment returns a distinct value, reads/identity updates see a non-decreasing value in range; (append) T threads x M `c += [k]` / `c += \"k,\"` / `c += 1.0` on one shared array, string, float or nested-array cell: the sizes returned by the assignments are exactly 1..TM, each once, and the final content holds every token exactly once; (cross) threads alternately updating each of two cells from the content of the other: every call returns a value within the expected mask, and the workers are watched - if no call completes for 40 s the executions are reported as deadlocked; (isolated) 16 threads executing the same Code objects (loops, closures, recursion, iterator helpers @ ? ~ $] $+ $* $|| $& \\ ? T) must each get the sequential result. Workload shapes are drawn from VERIF_SEED; interleavings are whatever the scheduler produces. Non-trivial = a repetition in which at least two threads' execution intervals overlapped; distinct by workload and repetition.",
         false,
-        &["schedules are sampled, not enumerated: a race that needs one specific interleaving can be missed; a deadlock ends in the watchdog (exit 2), not in a violation",
+        &["schedules are sampled, not enumerated: a race that needs one specific interleaving can be missed; a deadlock among the workers of the cross workload is reported as a violation after 40 s without a completed call (calls take microseconds); any other hang ends in the watchdog (exit 2)",
           "overlap is measured by wall-clock intervals of the worker threads"],
     )
 }
